@@ -94,7 +94,21 @@ func stopMonitor(k *K, name string, mk func() rawIter, o stopOpts) {
 	for _, it := range full {
 		fullSet[it.String()]++
 	}
+	// every stop position; for very long runs: the first and last 300 and the positions next to every power of two
+	stops := make([]int, 0, len(full))
 	for s := 0; s < len(full); s++ {
+		if len(full) <= 2000 || s < 300 || s >= len(full)-300 {
+			stops = append(stops, s)
+			continue
+		}
+		for _, d := range []int{s - 1, s, s + 1, s + 2} {
+			if d > 0 && d&(d-1) == 0 {
+				stops = append(stops, s)
+				break
+			}
+		}
+	}
+	for _, s := range stops {
 		var seen []item
 		stopped := false
 		after := 0
@@ -222,6 +236,7 @@ func init() {
 		Level: "exploration",
 		Rule: "16 iterators (Reader/File of fasta, fastq, bed, newick; Reader/ReaderHeader/File/FileHeader of sam; Node.PreOrder/PostOrder; Trie.ForEach; CanonicalSubsequences), each called directly with a monitoring callback: " +
 			"one uninterrupted run of N items, then one run per stop position 0..N-1 (the callback returns false there); well-formed, malformed and truncated inputs, plain and gzip files, missing files; " +
+			"tries with a 256-child node, tree nodes with 255..257 and 65535..65537 children (stop positions sampled beyond 2000 items); " +
 			"non-trivial = iterator run with at least 2 items; distinct by hash of (iterator, input)",
 		Assumptions: []string{"records are compared by content, errors by presence", "for the unordered Trie.ForEach a stopped run must deliver distinct members of the full result"},
 		MinEvents: map[string]int64{"stop_positions": 3000, "stops_on_error_item": 50, "runs_with_error_item": 50,
@@ -238,6 +253,7 @@ func init() {
 		ID:    "C19",
 		Level: "exploration",
 		Rule: "every ordered tree shape up to a node bound (Dyck-word enumeration), random trees up to 50000 nodes with fan-out 0..20 and nil vs empty Children, chains and brooms of depth 10^5..10^6: PreOrder/PostOrder pointer sequences compared with the classic recursive traversals; " +
+			"readers unit: the calls run while reader goroutines read the protected memory, -race build reports any write to it (also one undone before returning); " +
 			"a structural snapshot of the tree (pointers, names, distances, child slices) compared before and after; non-trivial = tree with at least 2 nodes; distinct by construction for enumerated shapes, by hash of the shape otherwise",
 		Assumptions: []string{"the explicit-stack reference traversal used for very deep trees is cross-checked against the truly recursive one at worker start"},
 		MinEvents:   map[string]int64{"trees_traversed": 1000, "nodes_visited": 10000, "deep_trees": 2},
@@ -246,6 +262,7 @@ func init() {
 			{Name: "shapes", QShards: 2, TShards: 8, Run: c19Shapes},
 			{Name: "random", TShards: 4, Run: c19Random},
 			{Name: "deep", Run: c19Deep},
+			{Name: "readers", Race: true, QShards: 2, TShards: 4, Run: c19Readers},
 		},
 	})
 }
@@ -364,6 +381,68 @@ func c18Memory(c *Ctx) {
 				}
 			}, stopOpts{unordered: true})
 			k.Nontrivial([]byte(fmt.Sprint(added)))
+		})
+		idx++
+	}
+	// Wide structures: a trie node with every one of the 256 possible children
+	// (a byte-sized child index wraps exactly there), tree nodes with 255..257
+	// and 65535..65537 children.
+	for i := 0; i < c.N(6, 40); i++ {
+		c.Case(idx, func(k *K) {
+			r := k.Rand()
+			t := trie.New()
+			prefix := randSeq(r, []byte("ab\x00\xff"), i%4)
+			n := 0
+			for b := 0; b < 256; b++ {
+				if i%5 == 4 && b == 77 {
+					continue // 255 children
+				}
+				key := append(append([]byte{}, prefix...), byte(b))
+				if r.IntN(3) == 0 {
+					key = append(key, randSeq(r, []byte("xy"), 1+r.IntN(2))...)
+				}
+				t.Add(key)
+				n++
+			}
+			for j := r.IntN(5); j > 0; j-- {
+				t.Add(randSeq(r, []byte("ab\x00\xff"), r.IntN(5)))
+			}
+			k.Input("prefix", prefix)
+			k.Input("children_of_prefix_node", n)
+			stopMonitor(k, "Trie.ForEach", func() rawIter {
+				return func(cb func(item) bool) {
+					t.ForEach(func(b []byte) bool { return cb(item{Key: string(b)}) })
+				}
+			}, stopOpts{unordered: true, limit: 5000})
+			k.Count("full_fanout_tries", 1)
+			k.Nontrivial([]byte(fmt.Sprint("fanout", i)), prefix)
+		})
+		idx++
+	}
+	for i, fan := range []int{255, 256, 257, 65535, 65536, 65537} {
+		if fan > 1000 && !c.Thorough && i != 4 {
+			continue
+		}
+		c.Case(idx, func(k *K) {
+			r := k.Rand()
+			root := &newick.Node{}
+			parent := root
+			if r.IntN(2) == 0 {
+				parent = &newick.Node{}
+				root.Children = []*newick.Node{{}, parent, {}}
+			}
+			for j := 0; j < fan; j++ {
+				ch := &newick.Node{}
+				if r.IntN(50) == 0 {
+					ch.Children = []*newick.Node{{}, {}}
+				}
+				parent.Children = append(parent.Children, ch)
+			}
+			k.Input("fan_out", fan)
+			stopMonitor(k, "Node.PreOrder", func() rawIter { return raw1(root.PreOrder(), nodeKey) }, stopOpts{limit: 200000})
+			stopMonitor(k, "Node.PostOrder", func() rawIter { return raw1(root.PostOrder(), nodeKey) }, stopOpts{limit: 200000})
+			k.Count("wide_trees", 1)
+			k.Nontrivial([]byte(fmt.Sprint("wide", fan)))
 		})
 		idx++
 	}
@@ -740,7 +819,8 @@ func c18Faulty(c *Ctx) {
 				k.Input("fault_mode", mode)
 				before := k.c.Rep.Counters["items_"+it.name]
 				stopMonitor(k, it.name, func() rawIter {
-					fr := &faultReader{data: x, k: kk, bytewise: mode.bytewise, forever: mode.forever, withData: mode.withData && kk > 0, budget: len(x) + 10000}
+					fr := &faultReader{data: x, k: kk, bytewise: mode.bytewise, forever: mode.forever, withData: mode.withData && kk > 0, budget: len(x) + 10000,
+						err: faultErrors[(kk+len(x)+3*mode.index())%len(faultErrors)]}
 					return streamOver(it.name, fr)
 				}, stopOpts{errorLast: it.errorLast, limit: len(x) + 10})
 				k.Count("faulty_stream_cases", 1)
